@@ -110,3 +110,65 @@ def node_refs(m):
     for i, ch in enumerate(kids(m)):
         walk(ch, (i,))
     return out
+
+
+# ---------------------------------------------------------------- element / segment validation on the implementation
+
+class RecErrh(object):
+    """records the calls element/composite/segment validation makes on the error handler"""
+
+    def __init__(self):
+        self.ev = []
+
+    def add_ele(self, node):
+        pc = node.parent.is_composite()
+        self.ev.append(','.join(['A', ostr(node.data_ele), str(node.seq), 'T' if pc else 'F', str(node.parent.seq if pc else 0)]))
+
+    def ele_error(self, code, msg, value, refdes=None):
+        if not isinstance(refdes, (str, type(None))):
+            # syntax errors pass the element position (an int) and the full syntax message
+            self.ev.append(','.join(['E', code, hx('Syntax Error'), ostr(value), 'N']))
+            return
+        self.ev.append(','.join(['E', code, hx(msg), ostr(value), ostr(refdes)]))
+
+
+def node_by_ref(m, ref):
+    n = m
+    ref = list(ref)
+    while ref:
+        i = ref.pop(0)
+        if n.is_map_root() or n.is_loop():
+            n = [ch for k in sorted(n.pos_map) for ch in n.pos_map[k]][i]
+        else:
+            n = n.children[i]
+    return n
+
+
+def impl_segvalid(m, ref, delims, text):
+    import pyx12.segment
+    node = node_by_ref(m, ref)
+    sg = pyx12.segment.Segment(text, delims[0], delims[1], delims[2])
+    errh = RecErrh()
+    try:
+        ok = node.is_valid(sg, errh)
+    except Exception as e:  # noqa
+        return core.exn_name(e)
+    return '|'.join(['T' if ok else 'F'] + errh.ev)
+
+
+def impl_elevalid(m, ref, dv):
+    """dv: None or list of component values"""
+    import pyx12.segment
+    node = node_by_ref(m, ref)
+    if dv is None:
+        data = None
+    elif node.is_composite() or not node.parent.is_composite():
+        data = pyx12.segment.Composite(':'.join(dv), ':')
+    else:
+        data = pyx12.segment.Element(dv[0])
+    errh = RecErrh()
+    try:
+        ok = node.is_valid(data, errh)
+    except Exception as e:  # noqa
+        return core.exn_name(e)
+    return '|'.join(['T' if ok else 'F'] + errh.ev)
